@@ -106,7 +106,8 @@ def structure_list(tier, seed):
     gas = list(families.lattice_gas((2, 2, 2), max_atoms=3 if tier == "quick" else 5))
     for gi, (sites, cols) in enumerate(gas):
         for spacing in (2.6, 3.4) if tier == "quick" else (2.6, 3.4, 4.5):
-            for pbc, kind in (((True, True, True), "cubic"), ((True, True, False), "skew"), ((False, False, False), "none"), ((True, False, False), "cubic")):
+            for pbc, kind in (((True, True, True), "cubic"), ((True, True, False), "skew"), ((False, False, False), "none"), ((True, False, False), "cubic"),
+                              ((False, True, True), "cubic"), ((False, True, False), "skew"), ((False, False, True), "cubic"), ((True, False, True), "skew")):
                 if tier == "quick" and (spacing != 2.6 or gi % 2) and not (kind == "cubic" and all(pbc)):
                     continue
                 at = families.gas_atoms(sites, cols, (29, 8), spacing, (2, 2, 2), pbc, cell_kind=kind, offset=off)
